@@ -284,7 +284,10 @@ fn value_for(class: &str, rng: &mut StdRng) -> String {
     match class {
         "valid" => ["1", "alpha", "semver", "main", "1.2.3", "standard", "0=5", "commit"][rng.gen_range(0..8)].to_string(),
         "empty" => String::new(),
-        "non-ascii" => ["é日本", "Ünï/çødé", "😀", "\u{212A}"][rng.gen_range(0..4)].to_string(),
+        "non-ascii" => ["é日本", "Ünï/çødé", "😀", "\u{212A}",
+                        // version-shaped texts with case-folding look-alikes (long s, Kelvin sign, dotted I) and fullwidth digits
+                        "1.0.0+a\u{17f}b", "1.0.0-\u{212a}1", "v1.2.3+\u{212a}x.7", "1.0.0-rc.\u{17f}", "1.0.0+a\u{130}b",
+                        "\u{ff11}.\u{ff12}.\u{ff13}", "1.2.3-\u{661}", "1!2.0\u{212a}1"][rng.gen_range(0..12)].to_string(),
         "long" => "x".repeat(300),
         "minus-one" => "-1".into(),
         "two-pow-32" => "4294967296".into(),
@@ -465,6 +468,24 @@ pub fn record(args: &[String]) {
             if rng.gen_bool(0.3) { a.insert(0, "-v".into()); }
             let r = run_bin(&a, None, &[], &["RUST_LOG"], None);
             return event("special", &a, &r, false, true, json!({"repository": name}));
+        }
+        if i % 20 == 7 {
+            // every kind of version string handed to check / render / --tag-version: the generators of the
+            // parser checks (valid, nearly valid, junk, look-alike characters, huge numbers)
+            let s = if rng.gen_bool(0.5) { crate::pep440::random_version(&mut rng) } else { crate::semver::random_version(&mut rng) };
+            let s = match rng.gen_range(0..6) { 0 => format!("{s}+a\u{17f}b"), 1 => format!("{s}-\u{212a}1"), _ => s };
+            let a: Vec<String> = match rng.gen_range(0..5) {
+                0 => vec!["check".into(), s],
+                1 => vec!["check".into(), s, "--format".into(), ["semver", "pep440"][rng.gen_range(0..2)].into()],
+                2 => vec!["render".into(), s, "--output-format".into(), ["semver", "pep440", "zerv"][rng.gen_range(0..3)].into()],
+                3 => vec!["version".into(), "--source".into(), "none".into(), "--tag-version".into(), s],
+                _ => vec!["flow".into(), "--source".into(), "none".into(), "--tag-version".into(), s, "--input-format".into(), ["auto", "semver", "pep440"][rng.gen_range(0..3)].into()],
+            };
+            if a.iter().any(|x| x.contains('\0')) {
+                return event("special", &["check".to_string(), "1.2.3".to_string()], &run_bin(&["check".to_string(), "1.2.3".to_string()], None, &[], &["RUST_LOG"], None), false, true, json!({}));
+            }
+            let r = run_bin(&a, None, &[], &["RUST_LOG"], None);
+            return event("special", &a, &r, false, true, json!({"version-string": true}));
         }
         if i % 40 == 39 {
             // special situations
